@@ -187,8 +187,18 @@ def specCommon (c : Config) (names : List (Nat × String)) : Packet → Option C
                           flows := (regroup (ipDataRecs ss) []).map (specFlow c.t names c.t.commonIp) }
   | .error _ _ => none
 
+/-- a record defines some projected attribute twice (the property leaves the choice open) -/
+def dupKeys (k : CommonKeys) (r : Rec) : Bool :=
+  [k.src4, k.src6, k.dst4, k.dst6, k.sport, k.dport, k.proto, k.first, k.last, k.smac, k.dmac].any fun key =>
+    (r.filter fun e => e.2.1 == key).length ≥ 2
+
+def pktHasDupKeys (c : Config) : Packet → Bool
+  | .v9 _ ss => (v9DataRecs ss).any (dupKeys c.t.commonV9)
+  | .ipfix _ ss => (regroup (ipDataRecs ss) []).any (dupKeys c.t.commonIp)
+  | _ => false
+
 def commonOk (c : Config) (names : List (Nat × String)) (pkts : List Packet) (cs : List (Option Common)) : Bool :=
-  pkts.length == cs.length && (pkts.zip cs).all fun p => specCommon c names p.1 == p.2
+  pkts.length == cs.length && (pkts.zip cs).all fun p => pktHasDupKeys c p.1 || specCommon c names p.1 == p.2
 
 end Netflow.Preds
 
